@@ -338,6 +338,52 @@ def run(ctx: Ctx) -> int:
                           "to_matrix() differs from the ordered product of documented matrices (up to global phase)",
                           {"text": small[0]})
             break
+    # cancellation sandwiches: a non-Clifford phase gate, a Clifford (or nothing), and a rotation that would undo it on the same or the
+    # opposite axis -- with and without leading Hadamards and entangling gates around the lane (build-time simplifications of the diagram
+    # must keep the Hadamards that do not cancel)
+    def _rot(g, a):
+        return (g, (), f"{g}") if g in ("T", "T_DAG") else (g, (a,), f"{g}({a})")
+    sand = []
+    for pre in ("", "H", "S"):
+        for g1, a1 in (("T", None), ("T_DAG", None), ("R_Z", 0.3), ("R_X", 0.3), ("R_Z", -2.125), ("R_Y", 0.3)):
+            for mid in ("", "H", "S", "SQRT_X", "H_YZ"):
+                for g2, a2 in (("T", None), ("T_DAG", None), ("R_Z", None), ("R_X", None), ("R_Y", None)):
+                    if a2 is None and g2.startswith("R_"):
+                        a2 = {"T": -0.25, "T_DAG": 0.25}.get(g1, -a1 if a1 is not None else 0.0)
+                        if g1 == "R_Z" and a1 == -2.125:
+                            a2 = 0.125
+                    sand.append((pre, _rot(g1, a1), mid, _rot(g2, a2)))
+    order = rng.permutation(len(sand))
+    n_sand = 0
+    for idx in (order[:220] if ctx.quick else order):
+        pre, r1, mid, r2 = sand[int(idx)]
+        wrap = bool(rng.random() < 0.3)
+        q = 1 if wrap else 0
+        lines, ops = [], []
+        if wrap:
+            lines.append("CX 0 1"); ops.append(("CX", (), [0, 1]))
+        for cl in (pre,):
+            if cl:
+                lines.append(f"{cl} {q}"); ops.append((cl, (), [q]))
+        lines.append(f"{r1[2]} {q}"); ops.append((r1[0], r1[1], [q]))
+        if mid:
+            lines.append(f"{mid} {q}"); ops.append((mid, (), [q]))
+        lines.append(f"{r2[2]} {q}"); ops.append((r2[0], r2[1], [q]))
+        if wrap:
+            lines.append("CX 0 1"); ops.append(("CX", (), [0, 1]))
+        text = "\n".join(lines)
+        try:
+            M = np.asarray(tsim.Circuit(text).to_matrix())
+        except Exception as e:
+            ctx.violation("composition-raises", f"to_matrix raised {e!r}", {"text": text})
+            break
+        n_sand += 1
+        ctx.count(("sandwich", text), nontrivial=True, bucket="cancellation-sandwich")
+        if not upto_phase(M, reference_matrix(ops), tol=1e-5):
+            ctx.violation("composition:" + text.replace("\n", ";")[:60],
+                          "to_matrix() differs from the ordered product of documented matrices (up to global phase)", {"text": text})
+            break
+    ctx.cov["cancellation_sandwiches"] = n_sand
     # the matrix reported for a circuit OBJECT that is mutated between calls (pop / append / += / *=) is the matrix of its current text
     for k in range(25 if ctx.quick else 400):
         text, ops = random_circuit(rng, names1, names2, nq_max=3, depth_max=6)
